@@ -114,7 +114,10 @@ func Base(d *Dialect) *schema.Schema {
 		ts.AddAttrs(&mysql.OnUpdate{A: "CURRENT_TIMESTAMP"})
 		g := col("g", d.Int(), true)
 		g.SetGeneratedExpr(&schema.GeneratedExpr{Expr: "a + 1", Type: "STORED"})
-		t.AddColumns(e, ts, g)
+		// a JSON column with a check that starts like, and is named like, the check MariaDB generates for it.
+		js := col("js", &schema.JSONType{T: "json"}, true)
+		t.AddColumns(e, ts, g, js)
+		t.AddChecks(schema.NewCheck().SetName("js").SetExpr("json_valid(`js`) and json_length(`js`) < 10"))
 		t.AddIndexes(
 			schema.NewIndex("idx_b_prefix").AddParts(&schema.IndexPart{SeqNo: 1, C: b, Attrs: []schema.Attr{&mysql.SubPart{Len: 10}}}),
 			schema.NewIndex("idx_d").AddParts(part(1, dd)).AddAttrs(&mysql.IndexType{T: "BTREE"}),
@@ -516,6 +519,11 @@ func Edits(d *Dialect) []Edit {
 			Edit{"enum_values", []string{"col:e"}, func(s *schema.Schema) {
 				C(T(s, "t"), "e").Type.Type = &schema.EnumType{T: "enum", Values: []string{"x", "y", "z"}}
 			}, []string{mt("ModifyColumn(e)[type]")}},
+			Edit{"json_check_named_like_its_column_dropped", []string{"check:js"}, func(s *schema.Schema) {
+				t := T(s, "t")
+				_, i := checkOf(t, "js")
+				t.Attrs = append(t.Attrs[:i:i], t.Attrs[i+1:]...)
+			}, []string{mt("DropCheck(js)")}},
 			Edit{"check_not_enforced", []string{"check:ck_a"}, func(s *schema.Schema) {
 				c, _ := checkOf(T(s, "t"), "ck_a")
 				c.AddAttrs(&mysql.Enforced{V: false})
